@@ -3,3 +3,4 @@ import DDProofs.Canon
 import DDProofs.Ext
 import DDProofs.Inv
 import DDProofs.ParseProofs
+import DDProofs.LexProofs
